@@ -367,7 +367,10 @@ func runC10(w *World, r *Report, tier string) {
 
 	// R5
 	{
-		loops := findRangeLoops(smz)
+		var loops []rangeLoop
+		for _, hf := range withHelpers(smz) { // the body under the lock may be a helper of its own
+			loops = append(loops, findRangeLoops(hf)...)
+		}
 		if len(loops) != 1 {
 			r.Undecided("R5", "xmpp.SendMissingStz#resend-loop", w.pos(smz.Pos()), fmt.Sprintf("expected one range loop, found %d", len(loops)))
 		} else {
